@@ -1124,22 +1124,26 @@ impl TypeSpace {
 
         // See if the value bounds fit within a known type.
         let maybe_type = match (min, max) {
-            (None, Some(max)) => formats.iter().rev().find_map(|(_, ty, _nz_ty, _, imax)| {
-                if (imax - max).abs() <= f64::EPSILON {
-                    Some(ty.to_string())
-                } else {
-                    None
-                }
-            }),
-            (Some(min), None) => formats.iter().rev().find_map(|(_, ty, nz_ty, imin, _)| {
-                if min == 1. {
-                    Some(nz_ty.to_string())
-                } else if (imin - min).abs() <= f64::EPSILON {
-                    Some(ty.to_string())
-                } else {
-                    None
-                }
-            }),
+            // A lone maximum admits arbitrarily small (negative) values so no
+            // type narrower than the default can hold them all.
+            (None, Some(_)) => None,
+            // A lone minimum admits arbitrarily large values so only the
+            // 64-bit types (the last two formats) can hold them all.
+            (Some(min), None) => {
+                formats
+                    .iter()
+                    .rev()
+                    .take(2)
+                    .find_map(|(_, ty, nz_ty, imin, _)| {
+                        if min == 1. {
+                            Some(nz_ty.to_string())
+                        } else if (imin - min).abs() <= f64::EPSILON {
+                            Some(ty.to_string())
+                        } else {
+                            None
+                        }
+                    })
+            }
             (Some(min), Some(max)) => {
                 formats.iter().rev().find_map(|(_, ty, nz_ty, imin, imax)| {
                     if min == 1. {
